@@ -385,11 +385,16 @@ func run(r *vk.Runner) {
 			cases = append(cases, c)
 		}
 	}
+	seenCase := map[string]bool{}
 	for _, c := range cases {
 		c := c
 		if r.Stopped() {
 			return
 		}
+		if seenCase[c.Family+"\x00"+c.ID] {
+			continue // the contract families already hold a subset of the entity cases
+		}
+		seenCase[c.Family+"\x00"+c.ID] = true
 		r.Family("j5s:" + c.Family)
 		b := c.P.Bundle()
 		listings := [][]string{b.Packages}
